@@ -227,9 +227,9 @@ Proof. intros H mu. apply is_zero_args_iff in H. destruct H as [->| ->]; cbn [co
 
 Theorem coef_padd mu p q : coef mu (padd p q) = coef mu p + coef mu q.
 Proof.
-  unfold padd. rewrite peq_Z_0. destruct (is_zero_args q) eqn:E.
+  unfold padd. rewrite !peq_Z_0. destruct (is_zero_args q) eqn:E.
   - rewrite (fzero_zero_args q E mu). ring.
-  - apply coef_padd_loop.
+  - destruct (is_zero_args p) eqn:Ep; [rewrite (fzero_zero_args p Ep mu); ring | apply coef_padd_loop].
 Qed.
 
 Theorem coef_pneg mu p : coef mu (pneg p) = - coef mu p.
@@ -244,12 +244,7 @@ Proof. unfold psub. rewrite coef_padd, coef_pneg. ring. Qed.
 Lemma coef_P_of_Z mu c : coef mu (P_of_Z c) = if list_eqb Nat.eqb [] mu then c else 0.
 Proof. cbn [P_of_Z coef fst snd]. ring. Qed.
 
-Theorem coef_padd_Z mu p c : coef mu (padd_Z p c) = coef mu p + coef mu (P_of_Z c).
-Proof.
-  unfold padd_Z. destruct (c =? 0) eqn:E.
-  - apply Z.eqb_eq in E; subst c. rewrite coef_P_of_Z. destruct (list_eqb Nat.eqb [] mu); ring.
-  - apply coef_padd_loop.
-Qed.
+
 
 (* contribution of the pair (A, B) of monomials to the coefficient of [mu] in a product *)
 Definition cterm (mu : list nat) (AB : mono * mono) : Z :=
@@ -304,10 +299,23 @@ Qed.
 
 Theorem padd_Z_eq p c : padd_Z p c = padd p (P_of_Z c).
 Proof.
-  unfold padd_Z, padd. rewrite peq_Z_0. unfold P_of_Z at 2. cbn [is_zero_args].
+  unfold padd_Z, padd. rewrite (peq_Z_0 (P_of_Z c)). unfold P_of_Z at 3. cbn [is_zero_args].
   replace (poly_eqb [(c, [])] [(0, [])]) with (c =? 0); [reflexivity|].
   unfold poly_eqb, mono_eqb, pair_eqb; cbn [list_eqb fst snd]. rewrite !andb_true_r. reflexivity.
 Qed.
+
+Theorem coef_padd_Z mu p c : coef mu (padd_Z p c) = coef mu p + coef mu (P_of_Z c).
+Proof. rewrite padd_Z_eq. apply coef_padd. Qed.
+
+(* the zero operands of + are absorbed *)
+Lemma padd_zero_r p q : is_zero_args q = true -> padd p q = p.
+Proof. intros H. unfold padd. rewrite peq_Z_0, H. reflexivity. Qed.
+
+Lemma padd_zero_l p q : is_zero_args p = true -> is_zero_args q = false -> padd p q = q.
+Proof. intros Hp Hq. unfold padd. rewrite !peq_Z_0, Hp, Hq. reflexivity. Qed.
+
+Lemma padd_nonzero p q : is_zero_args p = false -> is_zero_args q = false -> padd p q = padd_loop p q.
+Proof. intros Hp Hq. unfold padd. rewrite !peq_Z_0, Hp, Hq. reflexivity. Qed.
 (* ================================================================== 4. the invariant *)
 Fixpoint vsortedb (vs : list nat) : bool :=           (* variables of a monomial: non-decreasing *)
   match vs with
@@ -474,11 +482,27 @@ Proof.
   rewrite !InvS_iff. intros [Ha1 Ha2] [Hb1 Hb2]. split; [apply Forall_ok_padd_loop | apply ssorted_padd_loop]; assumption.
 Qed.
 
-(* The left operand must satisfy the STRICT invariant: Polynomial(0) + Polynomial('a') is [[0], [1, 'a']]. *)
+(* + preserves the invariant; the special zero [[0]] is absorbed on either side
+   (`if other == 0: return self`, `if self == 0: return other`) *)
+Theorem Inv_padd p q : Inv p -> Inv q -> Inv (padd p q).
+Proof.
+  intros Hp Hq. unfold padd. rewrite !peq_Z_0. destruct (is_zero_args q) eqn:Eq; [exact Hp|].
+  destruct (is_zero_args p) eqn:Ep; [exact Hq|].
+  apply InvS_Inv, InvS_padd_loop; apply Inv_not_zero_args; assumption.
+Qed.
+
+(* the result is even strict as soon as the left operand is strict, or as soon as neither operand is a zero *)
 Theorem InvS_padd p q : InvS p -> Inv q -> InvS (padd p q).
 Proof.
-  intros Hp Hq. unfold padd. rewrite peq_Z_0. destruct (is_zero_args q) eqn:E; [exact Hp|].
+  intros Hp Hq. unfold padd. rewrite !peq_Z_0. destruct (is_zero_args q) eqn:Eq; [exact Hp|].
+  destruct (is_zero_args p) eqn:Ep; [apply Inv_not_zero_args; assumption|].
   apply InvS_padd_loop; [exact Hp | apply Inv_not_zero_args; assumption].
+Qed.
+
+Theorem InvS_padd_nonzero p q :
+  Inv p -> Inv q -> is_zero_args p = false -> is_zero_args q = false -> InvS (padd p q).
+Proof.
+  intros Hp Hq Ep Eq. rewrite padd_nonzero by assumption. apply InvS_padd_loop; apply Inv_not_zero_args; assumption.
 Qed.
 
 Theorem InvS_pneg p : InvS p -> InvS (pneg p).
@@ -492,19 +516,14 @@ Qed.
 Theorem Inv_pneg p : Inv p -> Inv (pneg p).
 Proof. rewrite !Inv_iff. intros [H| ->]; [left; apply InvS_pneg; exact H | right; reflexivity]. Qed.
 
+Theorem Inv_psub p q : Inv p -> Inv q -> Inv (psub p q).
+Proof. intros Hp Hq. apply Inv_padd; [exact Hp | apply Inv_pneg; exact Hq]. Qed.
+
 Theorem InvS_psub p q : InvS p -> Inv q -> InvS (psub p q).
 Proof. intros Hp Hq. apply InvS_padd; [exact Hp | apply Inv_pneg; exact Hq]. Qed.
 
-(* with an int the special zero is harmless: [[0]] + c is [[c]] *)
 Theorem Inv_padd_Z p c : Inv p -> Inv (padd_Z p c).
-Proof.
-  intros Hp. apply Inv_iff in Hp. destruct Hp as [Hp| ->].
-  - apply InvS_Inv. rewrite padd_Z_eq. apply InvS_padd; [exact Hp | apply Inv_P_of_Z].
-  - unfold padd_Z. destruct (c =? 0) eqn:E; [reflexivity|]. apply Z.eqb_neq in E.
-    unfold P_of_Z. rewrite padd_loop_cons. cbn [fst snd]. rewrite vcmp_refl. cbn [Z.ltb Z.compare].
-    replace (0 + c) with c by ring. apply Z.eqb_neq in E. rewrite E. cbn [negb]. rewrite padd_loop_nil_l.
-    apply InvS_Inv, InvS_P_of_Z. apply Z.eqb_neq; exact E.
-Qed.
+Proof. intros Hp. rewrite padd_Z_eq. apply Inv_padd; [exact Hp | apply Inv_P_of_Z]. Qed.
 
 Theorem InvS_padd_Z p c : InvS p -> InvS (padd_Z p c).
 Proof. intros Hp. rewrite padd_Z_eq. apply InvS_padd; [exact Hp | apply Inv_P_of_Z]. Qed.
@@ -1089,9 +1108,9 @@ Section Eval.
 
   Theorem peval_padd p q : peval (padd p q) = peval p [+] peval q.
   Proof.
-    unfold padd. rewrite peq_Z_0. destruct (is_zero_args q) eqn:E.
+    unfold padd. rewrite !peq_Z_0. destruct (is_zero_args q) eqn:E.
     - rewrite (peval_zero_args q E). ring.
-    - apply peval_padd_loop.
+    - destruct (is_zero_args p) eqn:Ep; [rewrite (peval_zero_args p Ep); ring | apply peval_padd_loop].
   Qed.
 
   Theorem peval_pneg p : peval (pneg p) = [~] peval p.
@@ -1471,36 +1490,31 @@ Section Eval.
   Qed.
 End Eval.
 
-(* ================================================================== 10. the special zero [[0]] as LEFT operand of + *)
-(* Polynomial(0) + q keeps the monomial [0] unless q has a constant term (or is zero): the strict invariant is lost,
-   later products spread zero coefficients and the zero tests stop being exact (Examples below). *)
-Theorem Inv_padd_special q :
-  Inv q -> (is_zero_args q = true \/ exists c r, q = (c, []) :: r) -> Inv (padd [(0, [])] q).
-Proof.
-  intros Hq H. unfold padd. rewrite peq_Z_0. destruct (is_zero_args q) eqn:E; [reflexivity|].
-  destruct H as [H|(c & r & ->)]; [congruence|].
-  destruct (Inv_not_zero_args _ Hq E) as [Hs _]. pose proof Hs as Hs'. apply InvS_iff in Hs'. destruct Hs' as [Hok _].
-  inversion Hok as [|? ? [Hc _] _]; subst. cbn [fst] in Hc.
-  rewrite padd_loop_cons. cbn [fst snd]. rewrite vcmp_refl. cbn [Z.ltb Z.compare].
-  replace (0 + c) with c by ring. apply Z.eqb_neq in Hc. rewrite Hc. cbn [negb]. rewrite padd_loop_nil_l.
-  apply InvS_Inv. exact Hs.
-Qed.
+(* ================================================================== 10. the special zero [[0]] is absorbed by + *)
+(* Before the repair of Polynomial.__add__ (`if self == 0: return other`), Polynomial(0) + a was [[0], [1,'a']] and
+   (Polynomial(0) + a) * (b + c) - a * (b + c) was [[0,'b'], [0,'c']]: formally zero but truthy and != 0. *)
+Example special_zero_left_absorbed :
+  padd (P_of_Z 0) (P_of_var 0) = P_of_var 0 /\ padd (P_of_var 0) (P_of_Z 0) = P_of_var 0 /\
+  padd_Z (P_of_Z 0) 3 = P_of_Z 3 /\ padd (P_of_Z 0) (P_of_Z 0) = P_of_Z 0 /\ padd (P_of_Z 0) [] = P_of_Z 0 /\
+  padd [] (P_of_Z 0) = [] /\ invb (padd (P_of_Z 0) (P_of_var 0)) = true.
+Proof. repeat split; reflexivity. Qed.
 
-Example special_zero_left_breaks_Inv :
-  padd (P_of_Z 0) (P_of_var 0) = [(0, []); (1, [0%nat])] /\ invb (padd (P_of_Z 0) (P_of_var 0)) = false.
-Proof. split; reflexivity. Qed.
-
-(* (Polynomial(0) + a) * (b + c) - a * (b + c)  is  [[0,'b'], [0,'c']]: formally zero, but truthy and != 0 *)
-Definition zero_test_counterexample : poly :=
+Definition zero_test_former_counterexample : poly :=
   psub (pmul (padd (P_of_Z 0) (P_of_var 0)) (padd (P_of_var 1) (P_of_var 2)))
        (pmul (P_of_var 0) (padd (P_of_var 1) (P_of_var 2))).
 
-Example zero_tests_not_exact_without_Inv :
-  zero_test_counterexample = [(0, [1%nat]); (0, [2%nat])] /\
-  fzero zero_test_counterexample /\ pbool zero_test_counterexample = true /\ peq_Z zero_test_counterexample 0 = false.
+Example zero_tests_exact_after_repair :
+  zero_test_former_counterexample = [] /\
+  pbool zero_test_former_counterexample = false /\ peq_Z zero_test_former_counterexample 0 = true /\
+  psub (pmul (padd (P_of_Z 0) (P_of_var 0)) (P_of_var 1)) (pmul (P_of_var 0) (P_of_var 1)) = [].
+Proof. vm_compute. repeat split; reflexivity. Qed.
+
+(* the zero tests are exact only under the invariant: hand-built non-canonical argument lists defeat them *)
+Example zero_tests_need_Inv :
+  fzero [(0, [1%nat]); (0, [2%nat])] /\ invb [(0, [1%nat]); (0, [2%nat])] = false /\
+  pbool [(0, [1%nat]); (0, [2%nat])] = true /\ peq_Z [(0, [1%nat]); (0, [2%nat])] 0 = false.
 Proof.
-  assert (E : zero_test_counterexample = [(0, [1%nat]); (0, [2%nat])]) by (vm_compute; reflexivity).
-  split; [exact E|]. rewrite E. split; [|split; reflexivity].
+  split; [|repeat split; reflexivity].
   intros mu. cbn [coef fst snd]. destruct (list_eqb Nat.eqb [1%nat] mu), (list_eqb Nat.eqb [2%nat] mu); reflexivity.
 Qed.
 
@@ -1592,3 +1606,86 @@ Proof.
     destruct (Inv_not_zero_args p Hp Ep) as [Sp _]. destruct (Inv_not_zero_args q Hq Eq) as [Sq _].
     rewrite (InvS_canonical p q Sp Sq H). apply peq_refl.
 Qed.
+
+(* ================================================================== 13. valid multiplication schedules never fail *)
+(* every step's two indices are among the exponents already available (initially [1]) *)
+Fixpoint chain_valid (known : list nat) (steps : list (nat * nat)) : bool :=
+  match steps with
+  | [] => true
+  | (i, j) :: rest =>
+      existsb (Nat.eqb i) known && existsb (Nat.eqb j) known && chain_valid (known ++ [(i + j)%nat]) rest
+  end.
+
+Lemma nassoc_known {V} k (d : list (nat * V)) :
+  existsb (Nat.eqb k) (map fst d) = true -> exists v, nassoc k d = Some v.
+Proof.
+  induction d as [|[k' v'] d IH]; cbn [map existsb nassoc fst]; [discriminate|].
+  rewrite (Nat.eqb_sym k k'). destruct (Nat.eqb k' k); [intros _; exists v'; reflexivity | exact IH].
+Qed.
+
+Lemma pow_chain_loop_Some {V} (mul : V -> V -> V) steps : forall powers last,
+  chain_valid (map fst powers) steps = true -> exists y, pow_chain_loop mul powers last steps = Some y.
+Proof.
+  induction steps as [|[i j] rest IH]; intros powers last H; cbn [pow_chain_loop chain_valid] in *; [exists last; reflexivity|].
+  apply andb_true_iff in H. destruct H as [H H3]. apply andb_true_iff in H. destruct H as [H1 H2].
+  destruct (nassoc_known i powers H1) as (xi & ->). destruct (nassoc_known j powers H2) as (xj & ->).
+  apply IH. rewrite map_app. exact H3.
+Qed.
+
+Theorem ppow_chain_Some x steps : chain_valid [1%nat] steps = true -> exists y, ppow_chain x steps = Some y.
+Proof. intros H. unfold ppow_chain. apply pow_chain_loop_Some. exact H. Qed.
+
+Theorem rpow_chain_Some x steps : chain_valid [1%nat] steps = true -> exists y, rpow_chain x steps = Some y.
+Proof. intros H. unfold rpow_chain. apply pow_chain_loop_Some. exact H. Qed.
+
+(* conversely a failing lookup is the only way to get None *)
+Lemma nassoc_unknown {V} k (d : list (nat * V)) : existsb (Nat.eqb k) (map fst d) = false -> nassoc k d = None.
+Proof.
+  induction d as [|[k' v'] d IH]; cbn [map existsb nassoc fst]; [reflexivity|].
+  rewrite (Nat.eqb_sym k k'). destruct (Nat.eqb k' k); [discriminate | exact IH].
+Qed.
+
+Lemma pow_chain_loop_None {V} (mul : V -> V -> V) steps : forall powers last,
+  chain_valid (map fst powers) steps = false -> pow_chain_loop mul powers last steps = None.
+Proof.
+  induction steps as [|[i j] rest IH]; intros powers last H; cbn [pow_chain_loop chain_valid] in *; [discriminate|].
+  destruct (existsb (Nat.eqb i) (map fst powers)) eqn:H1; [|rewrite (nassoc_unknown i powers H1); reflexivity].
+  destruct (nassoc_known i powers H1) as (xi & ->).
+  destruct (existsb (Nat.eqb j) (map fst powers)) eqn:H2; [|rewrite (nassoc_unknown j powers H2); reflexivity].
+  destruct (nassoc_known j powers H2) as (xj & ->).
+  cbn [andb] in H. apply IH. rewrite map_app. exact H.
+Qed.
+
+Theorem ppow_chain_Some_iff x steps : chain_valid [1%nat] steps = true <-> exists y, ppow_chain x steps = Some y.
+Proof.
+  split; [apply ppow_chain_Some|]. intros (y & H). destruct (chain_valid [1%nat] steps) eqn:E; [reflexivity|].
+  unfold ppow_chain in H. rewrite (pow_chain_loop_None pmul steps [(1%nat, x)] x E) in H. discriminate.
+Qed.
+
+(* the schedules power_supply uses for the exponents 2..8 (chain c of the step s: i = c[-2], j = s - c[-2]) *)
+Definition power_supply_schedule (n : nat) : list (nat * nat) :=
+  match n with
+  | 2 => [(1, 1)]
+  | 3 => [(1, 1); (2, 1)]
+  | 4 => [(1, 1); (2, 2)]
+  | 5 => [(1, 1); (2, 1); (3, 2)]
+  | 6 => [(1, 1); (2, 1); (3, 3)]
+  | 7 => [(1, 1); (2, 1); (3, 2); (5, 2)]
+  | 8 => [(1, 1); (2, 2); (4, 4)]
+  | _ => []
+  end%nat.
+
+Example ex_schedules_2_8 :
+  forallb (fun n => chain_valid [1%nat] (power_supply_schedule n) && Nat.eqb (last_exp 1 (power_supply_schedule n)) n
+                    && opt_eqb poly_eqb (ppow_chain (P_of_var 0) (power_supply_schedule n)) (Some [(1, repeat 0%nat n)])
+                    && opt_eqb rpoly_eqb (rpow_chain (rdiv (R_of_var 0) (R_of_var 1)) (power_supply_schedule n))
+                                         (Some (mkR [(1, repeat 0%nat n)] [(1, repeat 1%nat n)])))
+          [2; 3; 4; 5; 6; 7; 8]%nat = true.
+Proof. vm_compute. reflexivity. Qed.
+
+Example ex_pow8 :                (* (a + b) ** 8 : x2 = x*x, x4 = x2*x2, x8 = x4*x4 *)
+  ppow_chain (padd (P_of_var 0) (P_of_var 1)) (power_supply_schedule 8) =
+  Some [(1, [0;0;0;0;0;0;0;0]%nat); (8, [0;0;0;0;0;0;0;1]%nat); (28, [0;0;0;0;0;0;1;1]%nat);
+        (56, [0;0;0;0;0;1;1;1]%nat); (70, [0;0;0;0;1;1;1;1]%nat); (56, [0;0;0;1;1;1;1;1]%nat);
+        (28, [0;0;1;1;1;1;1;1]%nat); (8, [0;1;1;1;1;1;1;1]%nat); (1, [1;1;1;1;1;1;1;1]%nat)].
+Proof. vm_compute. reflexivity. Qed.
